@@ -363,12 +363,23 @@ func (r *a07Run) apply(ev a07Ev) *verifkit.Failure {
 	switch ev.Kind {
 	case aAccept, aRefuse:
 		x := r.d.pending()
+		// nothing holds the peer back from dialling: administratively up and every connection so far is gone
+		free := !(len(r.down) > 0 && r.down[len(r.down)-1][1] == 0)
+		for _, c := range r.conns {
+			if _, eof, _ := c.ss.snapshot(); !eof && !c.weClosed {
+				free = false
+			}
+		}
 		for i := 0; x == nil && i < 40; i++ { // the connect timer is at most ConnectRetry
 			n.advance(time.Second)
 			x = r.d.pending()
 		}
 		if x == nil {
 			r.logf("%s: the server does not dial (40 s)", name)
+			if free {
+				// (idle hold time 5 s, then the connect timer of at most ConnectRetry <= 30 s)
+				return r.fail("no-redial", "the peer is administratively up and has had no connection for 40 s, yet the server does not try to connect (ConnectRetry %d s)", r.c.ConnectRetry)
+			}
 			return nil
 		}
 		if ev.Kind == aRefuse {
